@@ -915,12 +915,52 @@ class T:
             self.out.append(f"/-- class `{cls}` ({fname} line {c.lineno}): one field per `__slots__` entry the translated methods use -/\n"
                             f"structure {self_ty} where\n" + "".join(f"  {s} : {lt(t)}\n" for s, t in fields))
             defs = {n.name: n for n in c.body if isinstance(n, ast.FunctionDef)}
+            self.check_from_path(cls, defs)
             self.used_fields = set()
             for m in methods:
                 if m not in defs:
                     raise Unsupported(f"{cls}.{m} not found")
                 self.method(cls, self_ty, defs[m], m)
         return "\n".join(header + self.out + ["end GscribModel.Gen.HeightSrc"]) + "\n"
+
+
+# `from_path`: a map is built from what the file holds at the time of the call - one read per call, its result handed to the
+# constructor (the translated `__init__`), nothing kept between calls.  File decoding itself (cv2 / numpy.loadtxt) is a parameter.
+FROM_PATH = {
+    "RasterHeightMap": ["flags = cv.IMREAD_GRAYSCALE | cv.IMREAD_ANYDEPTH", "image_data = cv.imread(path, flags)",
+                        "if image_data is None:\n    raise ImageLoadError(<text>)", "return cls(image_data)"],
+    "SparseHeightMap": ["try:\n    delimiter = '\\t' if path.lower().endswith('.tsv') else ','\n    sparse_data = numpy.loadtxt(path, delimiter=delimiter)\n"
+                        "    if len(sparse_data) < 4:\n        raise ValueError(<text>)\n    if sparse_data.shape[1] != 3:\n        raise ValueError(<text>)\n"
+                        "    return cls(sparse_data)\nexcept Exception as e:\n    raise FileLoadError(<text>) from e"],
+}
+
+
+def _check_from_path(self, cls, defs):
+    want = FROM_PATH.get(cls)
+    if want is None:
+        if "from_path" in defs:
+            fail(defs["from_path"], f"{cls}.from_path is not expected")
+        return
+    fn = defs.get("from_path")
+    if fn is None:
+        raise Unsupported(f"{cls}.from_path not found")
+    if [dotted(d) for d in fn.decorator_list] != ["classmethod"]:
+        fail(fn, f"{cls}.from_path is expected to be a plain classmethod (no caching decorator)")
+
+    class Texts(ast.NodeTransformer):       # message texts are not part of the pin
+        def visit_Raise(self, node):
+            self.generic_visit(node)
+            if isinstance(node.exc, ast.Call) and len(node.exc.args) == 1 and isinstance(node.exc.args[0], (ast.JoinedStr, ast.Constant)):
+                node.exc.args[0] = ast.Name(id="<text>", ctx=ast.Load())
+            return node
+    body = [ast.unparse(Texts().visit(b)) for b in fn.body if not is_doc(b)]
+    if body != want:
+        raise Unsupported(f"{cls}.from_path is no longer `read the file once, hand the data to the constructor`: " + repr(body))
+    # module level: nothing may wrap the readers in a cache
+    return
+
+
+T.check_from_path = _check_from_path
 
 
 def main():
